@@ -6,6 +6,7 @@ desugared sheet's reference meaning (RowSem with blocks: an edge from a block le
 loose exit, never a hard exit) is also compared with the sugared sheet's compiled flow."""
 import json
 
+import c03_blocks
 import flowutil
 import rowref
 import sheetgen
@@ -28,7 +29,7 @@ def classify(tree):
             if it[0] == "for":
                 if len(it[4]) == 0 and sheetgen.include(it[1]):
                     keys.add("empty-loop")
-                if it[2] in CTX or (it[3] in CTX if it[3] else False) or it[2] in bound:
+                if it[2] in CTX or (it[3] in CTX if it[3] else False) or it[2] in bound or (it[3] in bound if it[3] else False) or it[3] == it[2]:
                     keys.add("loop-variable-shadows-outer-variable")
                 walk(it[6], bound | {it[2]} | ({it[3]} if it[3] else set()))
             elif it[0] == "block":
@@ -108,8 +109,8 @@ def run(ctx):
     dist = {"with_loop": 0, "with_block": 0, "with_include_if": 0, "nested": 0}
     for i in range(n):
         rng = ctx.rng
-        g = sheetgen.SugarGen(rng, wf=True, special_text=rng.random() < 0.4, empty_loops=rng.random() < 0.15,
-                              ctxvars=tuple(CTX), shadow=rng.random() < 0.2)
+        g = sheetgen.SugarGen(rng, wf=True, special_text=rng.random() < 0.4, empty_loops=rng.random() < 0.3,
+                              ctxvars=tuple(CTX), shadow=rng.random() < 0.35)
         tree = g.gen_tree(rng.choice([3, 4, 6, 9]))
         sug = sheetgen.flatten_sugared(tree)
         dist["with_loop"] += any(r["type"] == "begin_for" for r in sug)
@@ -118,6 +119,8 @@ def run(ctx):
         dist["nested"] += sheetgen.tree_depth(tree) >= 2
         judge(ctx, tree, nontrivial, samples)
     ctx.stats["distribution"] = dist
+    # the loop mechanics themselves: model (Comp/Blocks.v) <-> FlowParser, scope / unevaluated-content oracles
+    nontrivial |= {("blocks", c) for c in c03_blocks.run(ctx, (6000 if thorough else 500) * ctx.scale)}
     ctx.v.coverage["programs"] = ctx.stats.get("twins_equivalent", 0)
     ctx.v.coverage["disagreements_checked"] = len(ctx.disagreements) + sum(ctx.v.viol_by_key.values())
     ctx.v.coverage["distinct_nontrivial"] = len(nontrivial)
@@ -137,6 +140,8 @@ def run(ctx):
 def replay(rep):
     import common
     r = rep["replay"]
+    if r.get("fn") == "blocks":
+        return c03_blocks.replay(r)
     m = common.Model()
     outs = []
     for side in ("sugared", "desugared"):
